@@ -67,7 +67,32 @@ impl crux_core::App for DetApp {
                 model.log.push(s);
                 crux_core::render::render()
             }
-            DEv::Go(k) => match k % 7 {
+            DEv::Go(k) => match k % 9 {
+                // many headers, one of them multi-valued: sorting, hashing and small-size fast paths of
+                // whatever orders the protocol headers only show their nature beyond a few dozen entries
+                7 => {
+                    let values: Vec<http_types::headers::HeaderValue> = ["text/html", "application/json", "text/plain", "*/*"]
+                        .iter()
+                        .map(|v| v.parse().unwrap())
+                        .collect();
+                    let mut b = H::get("https://example.com/many").header("accept", &values[..]);
+                    for i in 0..40 {
+                        b = b.header(format!("x-trace-{i:02}").as_str(), format!("v{i}"));
+                    }
+                    b.build().then_send(|r| DEv::Done(http_summary(&r)))
+                }
+                8 => {
+                    let values: Vec<http_types::headers::HeaderValue> = ["a=1", "b=2", "c=3", "d=4", "e=5"]
+                        .iter()
+                        .map(|v| v.parse().unwrap())
+                        .collect();
+                    let mut b = caps.http.post("https://example.com/legacy-many").header("cookie", &values[..]);
+                    for i in 0..36 {
+                        b = b.header(format!("x-id-{i:02}").as_str(), format!("{}", i * 7));
+                    }
+                    b.send(|r| DEv::Done(http_summary(&r)));
+                    Command::done()
+                }
                 0 => {
                     caps.http
                         .get("https://example.com/legacy?x=1")
